@@ -105,7 +105,11 @@ class ResetOperation:
         )
 
     def replace_params(self, new_params: Tuple[Parameter, ...]) -> "ResetOperation":
-        return replace(self, params=new_params)
+        # dataclasses.replace would call __init__(params=...), which this class
+        # does not accept; build the replacement directly.
+        replacement = ResetOperation(self.qubit_indices[0])
+        replacement.params = tuple(new_params)
+        return replacement
 
     def apply(self, amplitude_vector: ParameterizedVector) -> ParameterizedVector:
         raise RuntimeError(
